@@ -47,6 +47,18 @@ PLAN = {
     "C10": lanes("C10", ["sse2", "scalar"], ["coresimd"], engine="e_geom"),
     "C11": lanes("C11", ["sse2", "scalar"], ["coresimd"], engine="e_geom"),
     "C12": lanes("C12", ["sse2", "scalar"], ["coresimd", "libm"], engine="e_geom"),
+    "C18": {"runs": [
+        {"engine": "e_api", "config": "sse2", "tiers": Q},
+        {"engine": "e_api", "config": "scalar", "tiers": Q},
+        {"engine": "e_api", "config": "dbg", "tiers": Q},
+        {"engine": "e_api", "config": "coresimd", "tiers": Q},
+        {"engine": "e_api", "config": "asan", "mode": "san", "tiers": Q, "shards": {"quick": 4, "thorough": 8}},
+        {"engine": "e_api", "config": "miri-sse2", "mode": "miri", "tiers": Q, "shards": {"quick": 8, "thorough": 8}},
+        {"engine": "e_api", "config": "miri-scalar", "mode": "miri", "tiers": T, "shards": {"quick": 8, "thorough": 8}},
+        {"engine": "e_api", "config": "miri-coresimd", "mode": "miri", "tiers": T, "shards": {"quick": 8, "thorough": 8}},
+        {"engine": "e_api", "config": "asan-coresimd", "mode": "san", "tiers": T, "shards": {"quick": 4, "thorough": 8}},
+        {"engine": "e_api", "config": "sse2", "mode": "san", "runner": "valgrind", "tiers": T, "shards": {"quick": 4, "thorough": 8}},
+    ]},
     "C13": lanes("C13", ["sse2", "dbg"], ["scalar"]),
     "C14": lanes("C14", ["sse2", "scalar"], ["coresimd"]),
     "C15": lanes("C15", ["sse2", "scalar", "coresimd"], []),
@@ -58,6 +70,7 @@ for _p in ("C13",):
         _r["shards"] = {"quick": 8, "thorough": 16}
 
 RULES = {
+    "C18": "Events: (1) panic monitor - every entry of the generated registry (all 1530 public inherent functions, operator / Neg / Index / PartialEq / Sum / Product / Display / From impls of the float vector, quaternion, matrix, affine and SIMD mask types) called under catch_unwind with each scalar argument slot in turn set to special-value lattice values (zero, -0, subnormal, tiny, huge, +-inf, NaNs) plus random lattice tuples and ordinary values; indices in range and slices long enough, so any panic is undocumented; (2) slice monitor - from_slice / write_to_slice / from_cols_slice / write_cols_to_slice of 29 types with every length 0..N+4 on sentinel windows and exactly sized heap slices: success reads/writes exactly the first N elements, short slices panic and leave the destination bit-identical; (3) Index/IndexMut, col/row/col_mut, test/set with indices 0..7 and usize::MAX; (4) pointer-cast conversions of the SIMD types; the same workload under AddressSanitizer (exact-size heap buffers), Miri (one call of each of the SIMD-type entries plus slices) and, in thorough, valgrind memcheck on the optimised binary. distinct = distinct (entry, hot slot, round class).",
     "C10": "Events: scale / rotation / translation triples with |scale| in [1e-3,1e3], every sign pattern (8 in 3-D, 4 in 2-D), rotations from the structured unit-quaternion generator (all four matrix->quaternion branches), translations over 16 decades. Compose: every SRT constructor of Mat4/DMat4, Affine3A/DAffine3, Affine2/DAffine2, Mat3/Mat3A (2-D), Mat2 and the product of glam's elementary constructors vs the double-double T*R*S (8 eps |s_c| per entry, translation bit-exact). Decompose: translation = last column bit-exact, unit rotation, |scale| = column lengths, negative x scale iff det < 0, recomposition reproduces the input (32 eps |s_c|). Cells (sign pattern x branch) are tabulated; an empty cell makes the run inconclusive.",
     "C11": "Events: cameras (unit dir and up with |dir x up| >= 1.2e-3 incl. nearly parallel hints, eyes over 13 decades, look_at centres) through look_to/look_at of Mat4, Affine3A, Quat, Mat3, Mat3A and f64 forms: orthonormal, det +1, dir -> -Z (rh) / +Z (lh), up hint -> x = 0 and y > 0 (16 eps / |dir x up|), eye -> origin; every perspective_* (fov in (1e-2, pi-1e-2), aspect 1e-2..1e2, far/near from 1.001 to 1e6) and orthographic_* constructor: frustum corners, centres and interior points at several depths pushed through the stored matrix in f64 must land on the documented NDC values, clip w = -z / +z exactly; project_point3(a) = xyz/w of M*(p,1).",
     "C12": "Events: lerp end points on all finite lattice pairs (IEEE equality); move_towards (partial / reach / snap-radius boundary zones); clamp_length*, rotate_towards (2-D, 3-D: clamped request incl. negative, length, angle from start, angle to target), vector slerp (zones regular / near_parallel / near_antiparallel), any_orthogonal/orthonormal over the whole sphere incl. z = -1 and z = +-0; quaternion lerp / slerp against the exact interpolants along the shorter arc with partners at angles 1e-7.5..pi-1e-7, Quat::rotate_towards (partial / reach / 1e-4 snap boundary), from_rotation_arc(_colinear, _2d) incl. exactly opposite and equal inputs; FloatExt lerp/inverse_lerp/remap. Angle-derived tolerances: 1e-6 (f32 polynomial acos/sin) + 16 eps / sin(theta).",
